@@ -1,5 +1,6 @@
 """C12 - the session answers any bytes safely, once, and keeps going."""
 import shutil
+import re
 import struct
 
 from kmip.core import enums, exceptions
@@ -28,7 +29,7 @@ def plan(tier):
                 'by a valid probe, under the same oracles; a cell is (mutation class, decodable?, outcome)',
         'min_monitor': {'frames_sent': 3000, 'undecodable_frames_checked': 1000, 'probes_after_garbage': 150,
                         'chunkings_compared': 150, 'maxsize_checked': 100,
-                        'fuzz_frames_undecodable': 1000, 'header_item_checks': 100},
+                        'fuzz_frames_undecodable': 1000, 'header_item_checks': 100, 'other_connection_probes': 40},
         'assumptions': ['a framed request is the unit delimited by the outer TTLV header, as the session frames it',
                         'undecodable = RequestMessage.read raises under the session\'s default version (1.2)',
                         'a frame whose header announces more bytes than the stream holds ends the connection '
@@ -39,7 +40,8 @@ def plan(tier):
 def cases(tier, seed):
     n = 96 if tier == 'quick' else 800
     nf = 4 if tier == 'quick' else 32
-    return [{'fuzz': i} for i in range(nf)] + [{'stream': i} for i in range(n)]
+    return ([{'fuzz': i} for i in range(nf)] + [{'stream': i} for i in range(n)] +
+            [{'other': i} for i in range(8 if tier == 'quick' else 64)])
 
 
 def reframe(body):
@@ -389,9 +391,115 @@ def run_fuzz(ctx, case):
         ctx.violation(v['key'], v['what'] + ' [coverage-guided frame]', v.get('detail'))
 
 
+def run_other(ctx, case):
+    """What one connection sends does not stop the server answering ANOTHER connection.  Connection A (a session thread of its
+    own) sends a request the server refuses or cannot decode - stale or future time stamp, unsupported protocol version,
+    asynchronous indicator, UNDO, random bytes, a mutated valid request, an unknown operation - and gets its error answer;
+    then connection B, on a different thread as every real session is, sends a valid request.  B must be answered.  The
+    wall clock only triggers the inspection (B's thread still waiting after 20 s); the verdict is the engine's request lock
+    found held although no request is in flight (its owner is a thread that has left the engine)."""
+    import threading
+    rng = ctx.rng()
+    clock = rig.install_clock(rig.VClock(step=0))
+    cert_a = rig.make_cert(('alice',), 'client')
+    cert_b = rig.make_cert(('bob',), 'client')
+    with rig.scratch_dir() as d:
+        srv = rig.Server(d + '/db.sqlite')
+        try:
+            objs = store.populate(srv, rng, n=4, owners=('alice',))
+            last = None
+
+            def leaked(waiting, who, kind, ra, fr, version, after, idle):
+                lock = getattr(srv.engine, '_lock', None)
+                state = repr(lock)
+                live = set(t.ident for t in threading.enumerate() if t is not waiting and t.ident not in idle)
+                m_ = re.search(r'owner=(\d+)', state)
+                owner = int(m_.group(1)) if m_ else None
+                if lock is not None and 'unlocked' not in state and (owner is None or owner not in live or owner == threading.main_thread().ident):
+                    ctx.violation('other-connection-blocked|%s' % after, 'after a connection sent a %s request%s, a request on another connection '
+                                  '(%s) is not answered: the engine\'s request lock is held (%s) although no request is in flight'
+                                  % (after, ' (answered %s)' % (ra,) if ra else '', who, state[:120]), {'frame': fr.hex()[:400], 'version': version})
+                else:
+                    ctx.unsure('connection %s of a C12 other-connection round was not answered within 20 s and the engine lock reads %s' % (who, state[:120]))
+            for rnd in range(12):
+                version = rng.choice(rig.VERSIONS)
+                kind = rng.choice(('stale', 'future', 'badversion', 'async', 'undo', 'garbage', 'mutated', 'failing-item', 'valid'))
+                op = op_get(objs[0].uid) if objs else op_query()
+                kw = {}
+                v = version
+                if kind == 'stale':
+                    kw['time_stamp'] = clock.now - 1000
+                elif kind == 'future':
+                    kw['time_stamp'] = clock.now + 1000
+                elif kind == 'async':
+                    kw['asynchronous'] = True
+                elif kind == 'undo':
+                    kw['error_option'] = E.BatchErrorContinuationOption.UNDO
+                elif kind == 'badversion':
+                    v = (9, 9)
+                elif kind == 'failing-item':
+                    op = op_get('no-such-object')
+                try:
+                    if kind == 'badversion':
+                        fr = bytearray(rig.encode_request(rig.build_request(version, [op] if rng.random() < 0.5 else []), version))
+                        i_ = bytes(fr).find(bytes.fromhex('4200690100000020'))
+                        fr[i_ + 16 + 4:i_ + 16 + 8] = struct.pack('!I', 9)
+                        fr = bytes(fr)
+                    else:
+                        fr = rig.encode_request(rig.build_request(version, [op], **kw), version)
+                    if kind == 'garbage':
+                        fr = reframe(bytes(rng.getrandbits(8) for _ in range(rng.choice((8, 24, 200)))))
+                    elif kind == 'mutated':
+                        _, fr = mutate(rng, fr)
+                        if len(fr) < 8 or struct.unpack('!I', fr[4:8])[0] != len(fr) - 8:
+                            continue
+                except Exception:
+                    continue
+                probe = rig.encode_request(rig.build_request((1, 2), [op_query()]), (1, 2))
+                out = {}
+
+                done_a, release_a = threading.Event(), threading.Event()
+
+                def conn(name, frames, cert):
+                    out[name] = run_stream(srv.engine, frames, cert, rng, 'exact')
+                    if name == 'a':
+                        # the connection stays open (its session thread lives on, idle) while B is served
+                        done_a.set()
+                        release_a.wait(120)
+                ta = threading.Thread(target=conn, args=('a', [fr], cert_a), daemon=True)
+                ta.start()
+                if not done_a.wait(20):
+                    leaked(ta, 'A', kind, None, fr, version, last, ())
+                    return
+                last = kind
+                tb = threading.Thread(target=conn, args=('b', [probe], cert_b), daemon=True)
+                tb.start()
+                tb.join(20)
+                ctx.ev()
+                ctx.count('other_connection_probes')
+                sa = out.get('a', ([], None))[0]
+                ra = rig.Result(sa[0]).brief() if sa else None
+                ctx.cell('other', kind, str(ra[0][0]) if ra else 'no-answer')
+                if tb.is_alive():
+                    leaked(tb, 'B', kind, ra, fr, version, kind, (ta.ident,))
+                    return
+                release_a.set()
+                ta.join(20)
+                sb, eb = out.get('b', ([], None))
+                rb_ = rig.Result(sb[0]) if sb else None
+                if eb is not None or rb_ is None or rb_.problems or not rb_.items or rb_.items[0]['status'] != 0:
+                    ctx.violation('other-connection-answer|%s' % kind, 'after connection A sent a %s request, a valid Query on another connection '
+                                  'is answered %s' % (kind, rb_.brief() if rb_ is not None and not rb_.problems else (eb or 'nothing')),
+                                  {'frame': fr.hex()[:400]})
+        finally:
+            srv.close()
+
+
 def run_case(ctx, case):
     if 'fuzz' in case:
         return run_fuzz(ctx, case)
+    if 'other' in case:
+        return run_other(ctx, case)
     rng = ctx.rng()
     clock = rig.install_clock(rig.VClock(step=0))
     cert = rig.make_cert(('alice',), 'client')
